@@ -445,9 +445,10 @@ fn parent(p: &str) -> String {
 }
 
 fn all_settings(sim: &Sim) -> Vec<Settings> {
+    // every configuration the editor has had in this session; a key that is unset in one of
+    // them resolves to its default location, so defaults are allowed exactly when they apply
     let mut v = sim.client.settings_history.clone();
     v.push(sim.client.settings.clone());
-    v.push(Settings::default());
     v
 }
 
